@@ -133,15 +133,19 @@ class CachedShapePreProcessor(CachedAmpPreProcessor):
         dec = self.decay_group
 
         used_chains = dec.chains_idx
-        dec.set_used_chains(cached_shape_idx)
-        with self.amp.temp_total_gls_one():
-            pv = build_params_vector(dec, x)
-        hij = []
-        for k, i in zip(cached_shape_idx, pv):
-            tmp = old_cached_amp[k]
-            a = tf.reshape(i, [-1, i.shape[1]] + [1] * (len(tmp[0].shape) - 1))
-            old_cached_amp[k] = a * tf.stack(tmp, axis=1)
-        dec.set_used_chains(used_chains)
+        try:
+            dec.set_used_chains(cached_shape_idx)
+            with self.amp.temp_total_gls_one():
+                pv = build_params_vector(dec, x)
+            hij = []
+            for k, i in zip(cached_shape_idx, pv):
+                tmp = old_cached_amp[k]
+                a = tf.reshape(
+                    i, [-1, i.shape[1]] + [1] * (len(tmp[0].shape) - 1)
+                )
+                old_cached_amp[k] = a * tf.stack(tmp, axis=1)
+        finally:
+            dec.set_used_chains(used_chains)
         x["cached_amp"] = list_to_tuple(old_cached_amp)
         return x
 
